@@ -304,6 +304,13 @@ class Engine(object):
             return fresh(v)
         self.prims["is_fresh"] = GhostPrim("is_fresh", is_fresh)
 
+        def module_value(ex, path):
+            """the module-level object at a dotted path, in the state the path has reached (representation
+            invariants of memo tables are stated over it)"""
+            modname, _, attr = path.rpartition(".")
+            return ex.wrap(getattr(self.module(modname), attr), "module:" + path)
+        self.prims["module_value"] = GhostPrim("module_value", module_value)
+
         def all_valid_names(ex, t):
             """every Note of a string / course has a valid name"""
             notes = t.items if isinstance(t, PList) else [t]
@@ -1113,7 +1120,13 @@ class Engine(object):
         ptypes = contract.get("params") or {}
         a = fref.node.args
         names = [p.arg for p in a.posonlyargs + a.args + a.kwonlyargs]
+        defaults = dict(zip([x.arg for x in (a.posonlyargs + a.args)][::-1], a.defaults[::-1]))
+        defaults.update((x.arg, d) for x, d in zip(a.kwonlyargs, a.kw_defaults) if d is not None)
         for p in names:
+            if p not in ptypes and p in defaults or ptypes.get(p) == "default":
+                # the contract is about calls that omit this argument: it takes the function's default object
+                env[p] = ex.eval_default(fref, defaults[p])
+                continue
             if p not in ptypes:
                 raise Unsupported("contract of %s gives no type for parameter %s" % (fref.fq, p))
             if bind and p in bind:
@@ -1201,6 +1214,10 @@ class Engine(object):
                 # a clause that is not defined in this state: harmless only if its case cannot apply on this path
                 if when is not None and not ctx.feasible(when):
                     ctx.emit("post", "%s/%s" % (pre, nm), True, None, note="case not applicable on this path")
+                    continue
+                if not ctx.feasible(z3.BoolVal(True)):
+                    # an earlier clause of this exit already failed (emitted goals are assumed afterwards): the
+                    # state is contradictory, the clause is reported through that earlier obligation
                     continue
                 raise
             if when is not None:
